@@ -244,6 +244,59 @@ def load_constructors(reg):
                      modifies=["self.*"], for_classes=[cls] + (["DistLogNormal"] if cls == "DistNormal" else []),
                      props=C14)
 
+    # geometric / negative binomial: the constructor also takes log(1 - p), which rejects p = 1 (math domain error = ValueError)
+    P = N("p")
+    GEO_INV = "0 <= self._p and self._p < 1 and self._lnp <= 0 and iff(self._lnp == 0, self._p == 0)"
+    reg.contract("DistGeometric.__init__", params={"stream": "obj", "p": "obj"},
+                 requires=["not isref(p)", "not isnum(p) or isfin(p) or isnan(num(p))"],
+                 raises=[("TypeError", "not instance(stream, 'StreamInterface') or not isfloat(p)"),
+                         ("ValueError", "instance(stream, 'StreamInterface') and isfloat(p) and (isnan(num(p)) or not (0 <= %s and %s < 1))" % (P, P))],
+                 on_raise="any", ensures=["self._stream == %s" % NEWS, "self._p == %s" % P, GEO_INV],
+                 modifies=["self.*"], props=C14)
+    reg.contract("DistNegBinomial.__init__", params={"stream": "obj", "s": "obj", "p": "obj"},
+                 requires=["not isref(p) and not isref(s)", "not isnum(p) or isfin(p) or isnan(num(p))"],
+                 raises=[("TypeError", "not instance(stream, 'StreamInterface') or not isfloat(p) or not isint(s)"),
+                         ("ValueError", "instance(stream, 'StreamInterface') and isfloat(p) and isint(s)"
+                                        " and (isnan(num(p)) or not (0 <= %s and %s < 1) or ival(s) <= 0)" % (P, P))],
+                 on_raise="any", ensures=["self._stream == %s" % NEWS, "self._p == %s" % P, "self._s == ival(s)", GEO_INV + " and self._s > 0"],
+                 modifies=["self.*"], props=C14)
+    c.for_classes = list(dict.fromkeys(c.for_classes + ["DistGeometric", "DistNegBinomial"]))
+
+    # compositions of gammas: the arguments are validated first, the stream last (super().__init__ -> the class's own
+    # _set_stream, which builds the inner gamma distributions on the same stream)
+    def coh(d):
+        return "%s is not None and %s._stream == self._stream and %s._shape > 0 and %s._scale > 0" % (d, d, d, d)
+    COMP = {
+        "DistPearson5": ([("alpha", "num"), ("beta", "num")], [("_alpha", N("alpha")), ("_beta", N("beta"))],
+                         "self._alpha > 0 and self._beta > 0 and " + coh("self._dist")),
+        "DistPearson6": ([("alpha1", "num"), ("alpha2", "num"), ("beta", "num")],
+                         [("_alpha1", N("alpha1")), ("_alpha2", N("alpha2")), ("_beta", N("beta"))],
+                         "self._alpha1 > 0 and self._alpha2 > 0 and self._beta > 0 and " + coh("self._dist1") + " and " + coh("self._dist2")),
+        "DistBeta": ([("alpha1", "num"), ("alpha2", "num")], [("_alpha1", N("alpha1")), ("_alpha2", N("alpha2"))],
+                     "self._alpha1 > 0 and self._alpha2 > 0 and " + coh("self._dist1") + " and " + coh("self._dist2")),
+    }
+    for cls, (params, fields, inv) in COMP.items():
+        names = [p for p, _ in params]
+        types_ok = " and ".join(TY[k] % p for p, k in params)
+        domain = " and ".join("not isnan(num(%s)) and %s > 0" % (p, N(p)) for p in names)
+        reg.contract("%s.__init__" % cls, params=dict({"stream": "obj"}, **{p: "obj" for p in names}),
+                     requires=["not isref(%s)" % p for p in names] + ["not isnum(%s) or isfin(%s) or isnan(num(%s))" % (p, p, p) for p in names],
+                     raises=[("TypeError", "not (%s) or ((%s) and not instance(stream, 'StreamInterface'))" % (types_ok, domain)),
+                             ("ValueError", "(%s) and not (%s)" % (types_ok, domain))],
+                     on_raise="any",
+                     ensures=["self._stream == %s" % NEWS] + ["self.%s == %s" % (f, v) for f, v in fields] + [inv],
+                     modifies=["self.*", "heap.DistGamma._stream", "heap.DistGamma._shape", "heap.DistGamma._scale"], props=C14)
+    SC, K = N("scale"), "ival(k)"
+    EDOM = "not isnan(num(scale)) and %s > 0 and %s > 0" % (SC, K)
+    reg.contract("DistErlang.__init__", params={"stream": "obj", "scale": "obj", "k": "obj"},
+                 requires=["not isref(scale) and not isref(k)", "not isnum(scale) or isfin(scale) or isnan(num(scale))"],
+                 raises=[("TypeError", "not (isnum(scale) and isint(k)) or ((%s) and not instance(stream, 'StreamInterface'))" % EDOM),
+                         ("ValueError", "isnum(scale) and isint(k) and not (%s)" % EDOM)],
+                 on_raise="any",
+                 ensures=["self._stream == %s" % NEWS, "self._scale == %s" % SC, "self._k == %s" % K,
+                          "self._scale > 0 and self._k > 0 and implies(self._k >= 10, " + coh("self._dist_gamma") + ")"],
+                 modifies=["self.*", "heap.DistGamma._stream", "heap.DistGamma._shape", "heap.DistGamma._scale"], props=C14)
+
     # NaN is outside every documented domain but passes guards of the form `x <= 0` (a comparison with NaN is false):
     # witness of the known finding, evaluated natively
     def nan_witness(table):
